@@ -557,6 +557,8 @@ def _to_c_expr(
             )
 
         if isinstance(n, ast.BinOp) and type(n.op) in _BIN:
+            if isinstance(n.op, ast.Div):
+                return f"(static_cast<float>({emit(n.left)}) / {emit(n.right)})"
             return f"({emit(n.left)} {_BIN[type(n.op)]} {emit(n.right)})"
 
         if isinstance(n, ast.UnaryOp) and type(n.op) in _UN:
@@ -1024,7 +1026,7 @@ def _infer_expr_type(
     if isinstance(node, ast.UnaryOp):
         if isinstance(node.op, ast.Not):
             return "bool"
-        return _infer_expr_type(
+        operand_type = _infer_expr_type(
             node.operand,
             var_types,
             functions,
@@ -1032,6 +1034,9 @@ def _infer_expr_type(
             function_param_orders,
             ctx,
         )
+        if operand_type == "bool":
+            return "int"
+        return operand_type
 
     if isinstance(node, ast.BoolOp):
         return "bool"
@@ -1126,6 +1131,8 @@ def _infer_expr_type(
                 )
             )
 
+        if fname in {"abs", "max", "min"} and "float" in arg_types:
+            return "float"
         if fname in _BUILTIN_CALL_RETURN_TYPES:
             return _BUILTIN_CALL_RETURN_TYPES[fname]
 
@@ -1177,7 +1184,7 @@ def _infer_expr_type(
                 var_types[node.right.id] = "String"
                 right = "String"
             return "String"
-        if "float" in (left, right):
+        if "float" in (left, right) or isinstance(node.op, ast.Div):
             return "float"
         return "int"
 
